@@ -364,7 +364,8 @@ QEntryOK(qo, qi) ==
        qwin == QOutsidePei(qo, qi+1, qend, <<>>)
        qens == SelectSeq(qwin, LAMBDA qx : qo[qx].k = "en" /\ qo[qx].m = qs /\ qo[qx].i = qo[qi].i)
        qgot == [qq \in 1..Len(qens) |-> qo[qens[qq]].id]
-       qwant == QRestore(qo[qi].i, qs, qo[qi].e, qrow.named)
+       \* the history policy sees the static type the row hands over: its trigger (possibly a base class of the occurrence's type)
+       qwant == QRestore(qo[qi].i, qs, IF qrow.ev \in {"any", "anyu"} THEN "any" ELSE qrow.ev, qrow.named)
    IN (qj # 0 /\ ~qo[qi].r /\ qs \in Machines /\ IsSub(qo[qi].m, qs)) =>
          /\ Len(qgot) = NReg(qs)
          /\ {qgot[qq] : qq \in 1..Len(qgot)} = {qwant[qq] : qq \in 1..NReg(qs)}
